@@ -60,6 +60,14 @@ def gen_cases(tier, seed):
         # relative position by 1e-7 relative (an artefact of the moved input, not of the library)
         shells, classes = bases.rand_basis(rng, ls, types=tp, emin=0.05, emax_fn=lambda l: 30.0, Kmax=2, Mmax=2, scale=1.0,
                                            geom=str(rng.choice(["coincident", "collinear", "coplanar", "general", "axis-zero", "far"])))
+        displaced = i % 4 == 1 and len(shells) >= 2
+        if displaced:  # a finite-difference displaced copy; it is moved 20-80 bohr away from / towards the origin below
+            dp, dcls = bases.displaced_pair(rng, shells[0]["l"], shells[1]["l"], emax=30.0)
+            for k in (0, 1):
+                shells[k]["c"] = dp[k]["c"]
+            for s_ in shells[2:]:
+                s_["c"] = [float(v) for v in np.array(dp[0]["c"]) + rng.normal(size=3)]
+            classes = [c for c in classes if not c.startswith("geom:")] + dcls
         if i % 3 == 0:  # the frame every stored reference uses: atoms on the x axis
             for k, s in enumerate(shells):
                 s["c"] = [float(0.9 * k), 0.0, 0.0]
@@ -76,6 +84,11 @@ def gen_cases(tier, seed):
             R = Q
             rk = "random-O3"
         d = rng.normal(size=3) * float(rng.choice([0.0, 1.0, 5.0]))
+        if displaced:
+            # a translation that changes the distance from the origin by tens of bohr: a result that depends on where
+            # the system sits (absolute coordinates entering a tolerance, say) cannot be covariant under it
+            u = rng.normal(size=3)
+            d = u / np.linalg.norm(u) * float(rng.uniform(20.0, 80.0))
         ntot = sum(bases.nfunc(s) for s in shells)
         dm, dcls = bases.rand_sym(rng, ntot, "indef" if i % 2 else "psd")
         # points: generic displacements (>= 0.1 bohr on every axis) from a centre, or exactly a centre; displacements of
